@@ -9,7 +9,7 @@ from vf.core import Report, Bounded, Violation
 from vf.runner import run_contracts
 from . import e2e
 
-LEVEL = "other"
+LEVEL = "exploration"
 PYTEAL_ERRORS = e2e.PYTEAL_ERRORS
 
 
